@@ -335,12 +335,12 @@ impl Online {
                     );
                 }
             }
-            Ev::AeReply { id, follower, leader, kind, term, match_index, truthful } => {
+            Ev::AeReply { rid, follower, leader, kind, term, match_index, truthful, .. } => {
                 if *kind == AeKind::Conflict {
                     self.counters.conflicts += 1;
                 }
                 self.acks_by_id.insert(
-                    *id,
+                    *rid,
                     AckInfo {
                         follower: *follower,
                         leader: *leader,
@@ -351,9 +351,9 @@ impl Online {
                     },
                 );
             }
-            Ev::AeReplyDeliver { id, leader } => {
+            Ev::AeReplyDeliver { rid, leader, .. } => {
                 self.counters.ae_acks += 1;
-                if let Some(a) = self.acks_by_id.get(id).cloned()
+                if let Some(a) = self.acks_by_id.get(rid).cloned()
                     && a.kind == AeKind::Success
                     && a.leader == *leader
                     && a.truthful != Some(false)
